@@ -85,6 +85,8 @@ func (a AdminState) clone() AdminState {
 }
 
 var adminDDocs = []*sgbucket.DesignDoc{
+	{Language: "javascript", Views: sgbucket.ViewMap{"a": sgbucket.ViewDef{Map: `function(doc, meta) { emit(meta.id, 1); }`, Reduce: "_sum"}}},   // as the next one, but for the reduce function
+	{Language: "javascript", Views: sgbucket.ViewMap{"a": sgbucket.ViewDef{Map: `function(doc, meta) { emit(meta.id, 1); }`}}},                   // ... and without one
 	{Language: "javascript", Views: sgbucket.ViewMap{"a": sgbucket.ViewDef{Map: `function(doc, meta) { emit(meta.id, 1); }`, Reduce: "_count"}}},
 	{Language: "javascript", Views: sgbucket.ViewMap{"a": sgbucket.ViewDef{Map: `function(doc, meta) { emit(doc.n, null); }`}, "b": sgbucket.ViewDef{Map: `function(doc, meta) { emit(meta.id, null); }`}}},
 	{Language: "javascript", Views: sgbucket.ViewMap{"c": sgbucket.ViewDef{Map: `function(doc, meta) { emit(1, 1); }`, Reduce: "_sum"}, "b": sgbucket.ViewDef{Map: `function(doc, meta) { emit(meta.id, 2); }`}, "d": sgbucket.ViewDef{Map: `function(doc, meta) { emit(2, 2); }`}}},
